@@ -91,6 +91,15 @@ class CoordExtract:
         it.np["arctanh"] = lambda x: sp.atanh(it.as_expr(x))
         it.np["atleast_1d"] = lambda x: x
 
+        def swapaxes(m, i, j):
+            if not (isinstance(m, Vec) and m.items and all(isinstance(r, Vec) for r in m.items)) or {int(i), int(j)} - {0, 1}:
+                raise Unsupported("np.swapaxes is only modelled for the two leading axes of a table")
+            if int(i) == int(j):
+                return m
+            return Vec([Vec([m.items[a].items[b] for a in range(len(m.items))]) for b in range(len(m.items[0].items))])
+
+        it.np["swapaxes"] = swapaxes
+
     def has(self, name: str) -> bool:
         f = self.cls.find_method(name)
         return f is not None and f.cls is not None and f.cls.name != "CoordinatesBase"
@@ -126,6 +135,15 @@ class CoordExtract:
 
     def rotation(self):
         return sp.Matrix(_vec_to_list(self.call("_basis_rotation", self.points()), self.it))
+
+    def divisors_of(self, name: str):
+        """(divisor, line) of every symbolic division performed while `name` is evaluated at a point"""
+        self.it.div_log = []
+        try:
+            self.call(name, self.points())
+            return list(self.it.div_log)
+        finally:
+            self.it.div_log = None
 
 
 class PointVec(Vec):
